@@ -30,7 +30,8 @@ def clause_of(msg):
 
 
 class Suite:
-    def __init__(self, pid, drv, judge, tags, kind='rat', judge_params=''):
+    def __init__(self, pid, drv, judge, tags, kind='rat', judge_params='', judge_view=None):
+        self.judge_view = judge_view
         self.pid = pid
         self.drv = drv
         self.judge = judge
@@ -93,7 +94,7 @@ class Suite:
         return impl
 
     def ask_judge(self, judge, params, impl):
-        rep = self.drv.ask('judge %s %s #%s' % (judge, params, obs_line(impl)))
+        rep = self.drv.ask('judge %s %s #%s' % (judge, params, obs_line(self.judge_view(impl) if self.judge_view else impl)))
         if rep in ('bad-trace', 'bad-op'):
             raise RuntimeError('judge could not read the trace: ' + rep)
         return rep
